@@ -333,6 +333,9 @@ def mvpn_sourcead(tokeniser: Any, afi: AFI, action: Any) -> SourceAD:
 # 'mup-isd <ip prefix> rd <rd>',
 def srv6_mup_isd(tokeniser: Any, afi: AFI) -> InterworkSegmentDiscoveryRoute:
     prefix_ip, prefix_len = parse_ip_prefix(tokeniser())
+    if prefix_ip.afi != afi:
+        # `announce ipv4 mup mup-isd 2001:db8::/64 ...`: the octets of the prefix were packed under the AFI of the command
+        raise ValueError(f'mup-isd prefix {prefix_ip}/{prefix_len} is not an {afi} prefix')
 
     value = tokeniser()
     if value != 'rd':
@@ -378,6 +381,9 @@ QFI_MAX = 63  # 2^6 - 1
 # 'mup-t1st <ip prefix> rd <rd> teid <teid> qfi <qfi> endpoint <endpoint> [source <source>]',
 def srv6_mup_t1st(tokeniser: Any, afi: AFI) -> Type1SessionTransformedRoute:
     prefix_ip, prefix_ip_len = parse_ip_prefix(tokeniser())
+    if prefix_ip.afi != afi:
+        # `announce ipv4 mup mup-t1st 2001::/16 ...` was announced as 32.1.0.0/16
+        raise ValueError(f'mup-t1st prefix {prefix_ip}/{prefix_ip_len} is not an {afi} prefix')
 
     tokeniser.consume('rd')
     rd = route_distinguisher(tokeniser)
